@@ -60,6 +60,7 @@ def gen_plan(rng, index, tier):
     # precision while every other animal scores exactly 0, so the match is still unique; distances work at any speed. Boxes stop
     # overlapping, so IoU configurations stay slow; absences would push the similarity to exactly 0, so fast scenes have none.
     fast = cfg["scoring_method"] in ("oks", "euclidean_dist") and rng.random() < 0.25
+    convoy = False
     if fast:
         ang = rng.uniform(0, 6.283)
         speed = rng.uniform(12.0, 24.0)
@@ -70,6 +71,13 @@ def gen_plan(rng, index, tier):
         # (local queues never forget a departed animal's last poses, so nobody may ever pass where somebody else has been)
         D = max(D, 1.25 * speed * (F + W))
         homes = [(50 + D * c[0], 50 + D * c[1]) for c in cells[:K]]
+        # convoy: the animals follow one another along the line of motion, far apart at every instant (L >= 100 px + a window's
+        # worth of travel) - but a follower does pass where the animal ahead of it WAS, more than two windows ago. A tracker
+        # that looks back no further than its window cannot be confused by that; one that never forgets can.
+        convoy = K >= 2 and rng.random() < 0.4
+        if convoy:
+            L = speed * (2 * W + 4) + 40.0
+            homes = [(50 + a * L * _m.cos(ang), 50 + a * L * _m.sin(ang)) for a in range(K)]
     # arrival times: animal 0 from the start; later arrivals only in frames where all seen so far are present
     present = [[False] * K for _ in range(F)]
     arrive = [0] * K
@@ -84,6 +92,8 @@ def gen_plan(rng, index, tier):
         fired["flat_body"] = 1
     if fast:
         fired["fast_common_motion"] = 1
+    if convoy:
+        fired["convoy"] = 1
     lead = rng.randint(1, 3) if (rng.random() < 0.15 and F > 5) else 0
     if lead:
         # nothing in view for the first frames: the first tracked frames create no track at all
@@ -123,7 +133,7 @@ def gen_plan(rng, index, tier):
     # permanent departures: an animal leaves for good (after the last arrival, so no newcomer ever appears while it is
     # missing); the animals that stay are never absent and must keep their identities however stale the leaver's track gets
     last_arrival = max(conf)
-    if K > 1 and F - last_arrival > 3:
+    if K > 1 and F - last_arrival > 3 and not convoy:  # (a follower would walk through the last poses a local queue keeps of a leaver)
         for a in range(K):
             if rng.random() < 0.2 and sum(1 for b in range(K) if present[F - 1][b]) > 1:
                 td = rng.randint(last_arrival + 1, F - 2)
@@ -316,6 +326,7 @@ def execute(plan, choices=None):
             "permuted_every_frame": int("permute_detections" in plan.get("faults_fired", {})),
             "animal_left_for_good": int("permanent_departure" in plan.get("faults_fired", {})),
             "fast_common_motion": int("fast_common_motion" in plan.get("faults_fired", {})),
+            "convoy_follower_passes_old_positions": int("convoy" in plan.get("faults_fired", {}) and len(frames) > 2 * plan["cfg"]["window_size"] + 6),
             "wander_far_over_time": int("wander" in plan.get("faults_fired", {})),
             "empty_leading_frames": int("empty_leading_frames" in plan.get("faults_fired", {})),
             "shy_newcomer_below_threshold": int("shy_newcomer" in plan.get("faults_fired", {})),
